@@ -59,6 +59,14 @@ fn parallel<T: Send, F: Fn(Slot, usize) -> (T, Slot) + Sync>(n: usize, threads: 
     v.into_iter().map(|x| x.1).collect()
 }
 
+fn fnv(s: &str) -> u64 {
+    let mut h: u64 = 14695981039346656037;
+    for b in s.bytes() {
+        h = (h ^ b as u64).wrapping_mul(1099511628211);
+    }
+    h
+}
+
 fn market_part(out: &mut Out, thorough: bool, seed: u64) {
     install_callback();
     let n_random = arg_u64("--market-seqs", if thorough { 60000 } else { 3000 }) as usize;
@@ -72,31 +80,46 @@ fn market_part(out: &mut Out, thorough: bool, seed: u64) {
             out.sample(&format!("{} => {}", o.m_req, o.m_exp));
         }
     }
-    // all sequences over the small alphabet, K = 2
-    let depth = arg_u64("--market-exh-depth", if thorough { 6 } else { 4 }) as usize;
-    let mut frontier: Vec<Vec<usize>> = vec![vec![]];
+    // all sequences over the small alphabet, K = 2: every one is run on the real market; those of length
+    // <= `ind` are validated one by one, all of them (length <= `depth`) enter the digest the model recomputes
+    let depth = arg_u64("--market-exh-depth", if thorough { 7 } else { 5 }) as usize;
+    let ind = arg_u64("--market-exh-individual", if thorough { 5 } else { 4 }) as usize;
+    let mut frontier: Vec<Vec<u8>> = vec![vec![]];
+    let mut digests: std::collections::BTreeMap<u8, (u64, u64)> = Default::default();
+    let mut total = 0u64;
     for d in 0..=depth {
-        // run every sequence of the current length; expand it by every operation possible after it
         let res = parallel(frontier.len(), 8, |slot, i| {
-            let (o, n, slot) = fixed_sequence(slot, 2, 2, &frontier[i]);
-            ((o, n), slot)
+            let path: Vec<usize> = frontier[i].iter().map(|&x| x as usize).collect();
+            let (o, n, slot) = fixed_sequence(slot, 2, 2, &path);
+            let h = fnv(&o.items);
+            let keep = if path.len() <= ind || o.err.is_some() { Some(o) } else { None };
+            ((h, n, keep), slot)
         });
         let mut next = vec![];
-        for (i, (o, succ)) in res.iter().enumerate() {
+        for (i, (h, succ, keep)) in res.iter().enumerate() {
             if !frontier[i].is_empty() {
-                emit(out, o, "exhaustive");
+                let e = digests.entry(frontier[i][0]).or_insert((0, 0));
+                e.0 = e.0.wrapping_add(*h);
+                e.1 += 1;
+                total += 1;
+                if let Some(o) = keep {
+                    emit(out, o, "exhaustive");
+                }
             }
             if d < depth {
                 for j in 0..*succ {
                     let mut p = frontier[i].clone();
-                    p.push(j);
+                    p.push(j as u8);
                     next.push(p);
                 }
             }
         }
         frontier = next;
     }
-    out.stat_n("exhaustive-depth", depth as u64);
+    for (first, (sum, cnt)) in &digests {
+        out.m(&format!("mk-exh 2 2 {} {}", depth, first), &format!("{} {}", sum, cnt));
+    }
+    out.stat_n("exhaustive-all-sequences-in-digest", total);
     // the market's own timeout thread wakes parked workers (1 s poll period)
     let scen: Vec<(usize, usize, u64)> = if thorough {
         vec![(2, 1, 100), (3, 2, 100), (3, 1, 300), (4, 3, 200), (4, 2, 500), (4, 1, 50)]
